@@ -154,11 +154,20 @@ def run_threads(cfg, preempt=None, opcode=False):
 
             class Pool:
                 def schedule(self, action, state=None):
+                    entry = [action]
                     with cond:
-                        pending.append(action)
+                        pending.append(entry)
                         ctl.ev("schedule")
                         cond.notify()
-                    return Disposable()
+
+                    def cancel():
+                        with cond:
+                            hit = any(e is entry for e in pending)
+                            if hit:
+                                pending[:] = [e for e in pending if e is not entry]
+                            ctl.ev("run_cancel", hit)
+
+                    return Disposable(cancel)
 
             sched = Pool()
 
@@ -167,7 +176,7 @@ def run_threads(cfg, preempt=None, opcode=False):
                     with cond:
                         while not pending:
                             cond.wait()
-                        a = pending.pop(0)
+                        a = pending.pop(0)[0]
                         ctl.ev("runBegin")
                     if cfg.get("catching"):
                         # a pool whose workers survive a raising task (concurrent.futures-like): the scheduler stays alive
@@ -197,6 +206,27 @@ def run_threads(cfg, preempt=None, opcode=False):
             sched = Wrap()
 
         obs = make_observer(ctl, sched, down)
+        if True:
+            from reactivex.disposable import SerialDisposable
+
+            class LSerial(SerialDisposable):
+                """the observer's `self.disposable`: logs its two locked decisions"""
+
+                def set_disposable(self, value):
+                    ctl.ev("assign", bool(self.is_disposed))
+                    super().set_disposable(value)
+
+                disposable = property(SerialDisposable.get_disposable, set_disposable)
+
+                def dispose(self):
+                    me = ctl.me().idx
+                    ctl.ev("dflag")
+                    n0 = len(ctl.events)
+                    super().dispose()
+                    if not any(e[0] == me and e[1] == "run_cancel" for e in ctl.events[n0:]):
+                        ctl.ev("run_cancel", False)  # nothing was held
+
+            obs.disposable = LSerial()
 
         def producer(prog):
             def f():
@@ -227,14 +257,20 @@ def run_threads(cfg, preempt=None, opcode=False):
         if kind == "pool":
             for _ in range(cfg.get("nc", 1)):
                 consumers.append(ctl.spawn(worker, "worker").idx)
+        disposers = []
+        for _ in range(cfg.get("ndisp", 0)):
+            def disposer():
+                ctl.ev("dcall")
+                obs.dispose()
+            disposers.append(ctl.spawn(disposer, "disposer").idx)
         status = ctl.run(timeout=cfg.get("timeout", 120.0))
         final = {"acq": obs._acq, "faulted": obs._flt, "qlen": len(obs._q)}
 
     # threads created by the scheduler under test are consumers, in creation order
     for t in ctl.threads:
-        if t.idx >= nprod and t.idx not in consumers:
+        if t.idx >= nprod and t.idx not in consumers and t.idx not in disposers:
             consumers.append(t.idx)
-    return {"status": status, "events": ctl.events, "choices": ctl.choices, "nprod": nprod, "consumers": consumers,
+    return {"status": status, "events": ctl.events, "choices": ctl.choices, "nprod": nprod, "consumers": consumers, "disposers": disposers,
             "final": final, "overlap": down.overlap, "steps": ctl.steps,
             "thread_exc": [[t.idx, fw.err_name(t.exc)] for t in ctl.threads if t.exc is not None]}
 
@@ -249,8 +285,12 @@ def labels_of(res):
     atomicity assumptions (a guarded field touched outside the observer's lock, an unclassifiable locked section)."""
     nprod, consumers = res["nprod"], res["consumers"]
     cidx = {t: j for j, t in enumerate(consumers)}
+    didx = {t: j for j, t in enumerate(res.get("disposers", []))}
+    expect_cancel = set()  # threads whose next "run_cancel" event is a model step (assign on a disposed holder / dispose)
 
     def tid(t):
+        if t in didx:
+            return ["d", didx[t]]
         return ["p", t] if t < nprod else ["c", cidx[t]]
 
     out = []  # (position, tid, label)
@@ -311,7 +351,18 @@ def labels_of(res):
         elif k == "get_stopped":
             out.append((pos, tid(t), ["skip"] if e[2] else ["check"]))
         elif k == "set_stopped":
-            out.append((pos, tid(t), ["mark"]))
+            out.append((pos, tid(t), ["dstop"] if t in didx else ["mark"]))
+        elif k == "assign":
+            out.append((pos, tid(t), ["assign", e[2]]))
+            if e[2]:
+                expect_cancel.add(t)
+        elif k == "dflag":
+            out.append((pos, tid(t), ["dflag"]))
+            expect_cancel.add(t)
+        elif k == "run_cancel":
+            if t in expect_cancel:
+                expect_cancel.discard(t)
+                out.append((pos, tid(t), ["cancelRun", e[2]]))
         elif k == "append":
             out.append((pos, tid(t), ["append", e[2]]))
         elif k == "schedule":
@@ -365,6 +416,6 @@ def oracle(cfg, res):
                 raised_at = nd - 1
     if res["overlap"]:
         return "two deliveries overlap"
-    if res["status"] in ("ok", "idle") and raised_at is None and len(delivered) != len(received):
+    if res["status"] in ("ok", "idle") and raised_at is None and len(delivered) != len(received) and not cfg.get("ndisp"):
         return f"scheduler idle with {len(received) - len(delivered)} received notification(s) undelivered: delivered {delivered}, received {exp}"
     return None
